@@ -217,8 +217,13 @@ def finish(pid, tier, level, results, t0, *, rule, bounds, assumptions, techniqu
         "wall_s": round(wall, 2),
         "violations": len(replay_paths),
     }
-    os.makedirs(os.path.join(VERIF, "evidence"), exist_ok=True)
-    with open(os.path.join(VERIF, "evidence", pid + ".json"), "w") as fh:
+    # runs against a scratch copy of the sources (mutation / seeding trials) must not overwrite the evidence of /repo
+    evdir = os.path.join(VERIF, "evidence")
+    if os.environ.get("SHADOW_REPO_SRC") and os.environ.get("SHADOW_REPO_SRC") != "/repo/src":
+        evdir = os.environ.get("VERIF_EVIDENCE_DIR", "/tmp/verif_scratch_evidence")
+        ev["source_root"] = os.environ.get("SHADOW_REPO_SRC")
+    os.makedirs(evdir, exist_ok=True)
+    with open(os.path.join(evdir, pid + ".json"), "w") as fh:
         json.dump(ev, fh, indent=1, default=str)
     for k in sorted(known_hits):
         print("KNOWN-FINDING: property=%s %s" % (pid, known_hits[k]["what"]))
